@@ -95,6 +95,18 @@ func Graph(t *rapid.T, maxV, maxE int) *model.Graph {
 		}
 		g.E = append(g.E, e)
 	}
+	// vertex ids and edge ids are separate id spaces: now and then an edge carries the id
+	// of a vertex (stored or not)
+	if ne > 0 && rapid.IntRange(0, 3).Draw(t, "sharedGid") == 0 {
+		e := g.E[rapid.IntRange(0, ne-1).Draw(t, "sharedGidEdge")]
+		// half of the time the id of one of its own endpoints
+		e.ID = rapid.SampledFrom([]string{e.From, e.To, rapid.SampledFrom(VertexIDs).Draw(t, "sharedGidID")}).Draw(t, "sharedGidPick")
+		for _, o := range g.E {
+			if o != e && o.ID == e.ID {
+				e.ID = "e-shared" // (an endpoint named like another edge: keep edge ids unique)
+			}
+		}
+	}
 	return g
 }
 
